@@ -376,8 +376,13 @@ fn items_json(items: &[syn::Item], prefix: &str) -> Vec<Value> {
                         sub.push(json!({"kind":"other","span":sp(ti.span())}));
                     }
                 }
+                let tstart = match &t.vis {
+                    syn::Visibility::Inherited => br(t.trait_token.span()).0,
+                    v => br(v.span()).0,
+                };
                 out.push(json!({"kind":"trait","name":t.ident.to_string(),
                     "qual":format!("{}{}",prefix,t.ident),"span":sp(t.span()),
+                    "start": tstart,
                     "open": br(t.brace_token.span.open()).0,
                     "close": br(t.brace_token.span.close()).0,
                     "items":sub}));
